@@ -349,8 +349,8 @@ PROPS = {
             "ASSUMED: the float callees (get_base_face_triangle, get_reflected_face_triangle, compute_spherical_triangle) are "
             "deterministic functions of their explicit arguments (spec_ft / spec_st) and compute_spherical_triangle preserves the "
             "invariant; CRS::invocations (a counter) does not flow into results",
-            "precondition origin_id < 12 on get_spherical_triangle (derived from its callers; with origin_id in 12..23 the slot index "
-            "collides with a reflected slot - not reachable through the public API)",
+            "no precondition on origin_id any more: with the fix: commit f47c526 (defect F18: ids 12..23 aliased reflected slots) "
+            "get_spherical_triangle / inverse are proved history-independent for every u8 origin id (Err for ids >= 12)",
         ],
         "bounded_ops": [
             {"op": "purity", "budget": 400, "timeout": 900, "what": "whole public API, BOUNDED stand-in for the sentences no contract here can "
@@ -359,8 +359,11 @@ PROPS = {
              "shuffled order), while six threads use the library at the same time in different orders (schedule uncontrolled: "
              "exploration), and in fresh threads after other threads used the library; back-to-back calls on cells whose curve "
              "position differs in one bit are part of the sequence"},
+            {"op": "proj_history", "budget": 100, "timeout": 300, "what": "BOUNDED replay of the memo contracts on the public projection "
+             "object: DodecahedronProjection::inverse(p, id) gives the same answer from a fresh object and from one that served 240 other "
+             "calls, for origin ids 0..40, 63, 127, 128, 200, 255 x 40 face points (defect F18 lived at ids 12..23)"},
         ],
-        "search_ops": ["purity"],
+        "search_ops": ["proj_history", "purity"],
         "level_text": "Proof (Verus/Z3) on the real get_face_triangle, get_spherical_triangle, get_face_triangle_index, forward and inverse "
                       "of DodecahedronProjection (&mut self, Vec<Option<_>> caches): representation invariant 'every filled slot holds "
                       "the value of its own key' is preserved, the memo functions return spec(key) whatever the cache contents and "
